@@ -44,6 +44,30 @@ lazy_static! {
     };
 }
 
+/// Length of the longest prefix of `data` that does not end in the middle of a UTF-8 sequence
+fn complete_utf8_len(data: &[u8]) -> usize {
+    let len = data.len();
+
+    for back in 1..=len.min(3) {
+        let byte = data[len - back];
+
+        if byte & 0xC0 == 0x80 {
+            continue;
+        }
+
+        let expected = match byte {
+            0xC0..=0xDF => 2,
+            0xE0..=0xEF => 3,
+            0xF0..=0xF7 => 4,
+            _ => 1,
+        };
+
+        return if expected > back { len - back } else { len };
+    }
+
+    len
+}
+
 impl HtmlFilterBodyAction {
     pub fn new(visitor: HtmlBodyVisitor) -> Self {
         Self {
@@ -59,6 +83,10 @@ impl HtmlFilterBodyAction {
         let mut data = self.last_buffer.clone();
         data.extend(input);
 
+        // A chunk can end in the middle of a multi-byte character: keep the incomplete
+        // sequence for the next call instead of failing to decode the last token
+        let incomplete_char = data.split_off(complete_utf8_len(&data));
+
         let mut tokenizer = html::Tokenizer::new(data);
         let mut to_return = "".to_string();
 
@@ -68,6 +96,7 @@ impl HtmlFilterBodyAction {
             if token_type == html::TokenType::ErrorToken {
                 self.last_buffer = tokenizer.raw();
                 self.last_buffer.extend(tokenizer.buffered());
+                self.last_buffer.extend(incomplete_char);
 
                 break;
             }
@@ -81,6 +110,7 @@ impl HtmlFilterBodyAction {
                     self.last_buffer = token_data.into_bytes();
                     self.last_buffer.extend(tokenizer.raw());
                     self.last_buffer.extend(tokenizer.buffered());
+                    self.last_buffer.extend(incomplete_char);
 
                     return Ok(to_return.into_bytes());
                 }
